@@ -4,6 +4,7 @@
 pub mod config;
 pub mod kv;
 pub mod memstore;
+pub mod storage;
 pub mod buflog;
 
 use std::path::Path;
